@@ -345,6 +345,14 @@ func TestVfC05Pipeline(t *testing.T) {
 					}
 				}
 				if found {
+					// the exchange sits in its write (the connection holds it): the buffer it was given is the caller's, who
+					// may be sending the same octets to another upstream at this very moment
+					if !bytes.Equal(e.query, e.orig) {
+						got := append([]byte(nil), e.query[:2]...)
+						setHold(false)
+						e.query = append([]byte(nil), got...)
+						t.Fatalf("exchange %d: the caller's query bytes are modified while the exchange is writing (octets 0-1 are %x, the caller's ID is %04x)", e.token, e.query[:2], e.callerID)
+					}
 					h.deliver(w.conn, w.wireID, e.token)
 					c := srv.snapshot()[w.conn]
 					for deadline := time.Now().Add(vfStall); !c.Drained() && time.Now().Before(deadline); {
